@@ -11,7 +11,7 @@
    monitored — it is genuinely false for some texts (relex_unstable_witness: `ss.s` -> `SS.S`, three
    tokens become one Hostname), although idempotence itself holds there. *)
 Require Import Base Overlap OverlapProofs Tables_lexer Lexer Condense ListLemmas TokenInv CondenseInv LexerProofs
-  DocumentProofs C18LexStable C18PassesIC C18LexDots.
+  DocumentProofs C18LexStable C18PassesIC C18LexDots C18LexAlnum.
 Require Import Tables_titlecase TitleCase TitleCaseProofs C18Str.
 From Coq Require Import Lia Sorting.Sorted.
 
@@ -465,6 +465,106 @@ Section Str.
     - intros toks w0 rest E Hfl. apply (str_first_upper src out toks w0 rest Hcl H E Hfl).
     - apply (str_idempotent_dotted src out Hla Hua Hapo Hfx Hfix Hf Hd Hdm Hp H).
   Qed.
+  (* ================= phase 5: texts with DIGITS, periods and the straight apostrophe ================= *)
+  (* case_stable for the class of C18LexAlnum: as case_stable2, the variant lies in the larger class (an ASCII
+     digit, a period, an apostrophe have no case variant but themselves under the monitored laws) *)
+  Definition case_stable3 (a : char) : Prop :=
+    forall c, case_variant lower upper a c ->
+      c = a \/ (wch u a = true /\ wch u c = true /\ char3 u c = true)
+            \/ (ochar u a = true /\ ochar u c = true /\ char3 u c = true).
+  Definition alnum_stable_text (s : text) : Prop :=
+    Forall (fun a => char3 u a = true /\ case_stable3 a) s /\ ctx_ok3 u s = true.
+  Definition alnum_case_closed : Prop := forall a, char3 u a = true -> case_stable3 a.
+
+  Lemma alnum_stable_of_closed s : alnum_case_closed -> alnum_text u s = true -> alnum_stable_text s.
+  Proof.
+    intros Hcc Hp. apply alnum_text_Alnum in Hp. destruct Hp as [Hp Hc]. split; [|exact Hc].
+    eapply Forall_impl; [|exact Hp]. cbn beta. intros a Ha. split; [exact Ha|apply Hcc; exact Ha].
+  Qed.
+
+  Lemma alnum_stable_Alnum s : alnum_stable_text s -> Alnum u s.
+  Proof. intros [H Hc]. split; [|exact Hc]. eapply Forall_impl; [|exact H]. cbn beta. intros a [Ha _]. exact Ha. Qed.
+
+  Lemma char3_not_apo_from a : char3 u a = true -> ~ In a tc_canonical_apostrophe_from.
+  Proof.
+    intros Hp Hin. assert (Hb : In a bad3).
+    { cbn in Hin. cbn. destruct Hin as [<-|[<-|[<-|[]]]]; tauto. }
+    pose proof (char3_not_bad u a a Hp Hb) as X. rewrite N.eqb_refl in X. discriminate.
+  Qed.
+
+  Lemma alnum_rel_Rl (src out : text) : ascii_case_faithful ->
+    Forall (fun a => char3 u a = true /\ case_stable3 a) src ->
+    Forall2 (tc_rel lower upper) src out -> Forall2 (Rl u) src out /\ Forall (fun c => char3 u c = true) out.
+  Proof.
+    intros Hf HP HR. induction HR as [|a c l l' Hac _ IH]; [split; constructor|].
+    inversion HP as [|a' l0 [Pa Hcs] Pl]; subst. destruct (IH Pl) as [IH1 IH2].
+    destruct Hac as [Hv|[Hin _]]; [|exfalso; exact (char3_not_apo_from a Pa Hin)].
+    destruct (Hcs c Hv) as [->|[(W1 & W2 & Pc)|(W1 & W2 & Pc)]].
+    - split; constructor; try assumption. now left.
+    - split; constructor; try assumption. right. left. repeat split; try assumption. exact (Hf a c Hv).
+    - split; constructor; try assumption. right. right. split; assumption.
+  Qed.
+
+  (* RE-LEXING a text of the class: same document tokens, metadata included; the output is in the class again *)
+  Theorem str_relex_alnum (src out : text) :
+    lower_ascii_law lower -> upper_ascii_law upper -> apostrophes_caseless lower upper -> ascii_case_faithful ->
+    dict_meta_case_insensitive ->
+    alnum_stable_text src ->
+    tcs src = Ok out ->
+    doc out = doc src /\ alnum_text u out = true.
+  Proof.
+    intros Hla Hua Hapo Hf Hdm Hps H. pose proof (alnum_stable_Alnum _ Hps) as Hp. destruct Hps as [Hps Hctx].
+    pose proof (str_rel _ _ Hla Hua Hapo H) as HR.
+    destruct (alnum_rel_Rl _ _ Hf Hps HR) as [HRl Hp'].
+    assert (Hd' : Alnum u out).
+    { split; [exact Hp'|]. rewrite (ctx_ok3_congr u src out HRl). exact Hctx. }
+    split; [|apply alnum_text_Alnum; exact Hd'].
+    apply (str_relex_of_lexer src out Hla Hua Hapo Hf Hdm H).
+    apply plain_parse_alnum; assumption.
+  Qed.
+
+  Theorem str_idempotent_alnum (src out : text) :
+    lower_ascii_law lower -> upper_ascii_law upper -> apostrophes_caseless lower upper ->
+    lowercase_fixed lower is_lowercase -> apostrophes_lower_fixed lower -> ascii_case_faithful ->
+    dict_case_insensitive lower upper is_lowercase dict_canon dict_meta ->
+    dict_meta_case_insensitive ->
+    alnum_stable_text src ->
+    tcs src = Ok out ->
+    tcs out = Ok out.
+  Proof.
+    intros Hla Hua Hapo Hfx Hfix Hf Hd Hdm Hp H.
+    destruct (str_relex_alnum _ _ Hla Hua Hapo Hf Hdm Hp H) as [Hre _].
+    apply (str_idempotent_partial src out Hla Hua Hapo Hfx Hfix Hd H Hre).
+  Qed.
+
+  (* the whole property text for a text of the class, about strings *)
+  Theorem str_property_alnum (src : text) :
+    lower_ascii_law lower -> upper_ascii_law upper -> apostrophes_caseless lower upper ->
+    ascii_variant_closed lower upper -> lowercase_fixed lower is_lowercase -> apostrophes_lower_fixed lower ->
+    ascii_case_faithful ->
+    dict_case_insensitive lower upper is_lowercase dict_canon dict_meta ->
+    (forall w cc, dict_canon w = Some cc -> length w <= length cc) ->
+    dict_meta_case_insensitive ->
+    alnum_stable_text src ->
+    exists out,
+      tcs src = Ok out /\
+      length out = length src /\
+      (forall k c, nth_error out k = Some c -> exists a, nth_error src k = Some a /\ case_variant lower upper a c) /\
+      (forall toks w0 rest, doc src = Ok toks -> filter tok_word_like toks = w0 :: rest ->
+         exists a c, nth_error src (tstart w0) = Some a /\ nth_error out (tstart w0) = Some c /\
+                     is_ascii_lower c = false /\ (is_ascii_alpha a = true -> is_ascii_upper c = true)) /\
+      tcs out = Ok out.
+  Proof.
+    intros Hla Hua Hapo Hcl Hfx Hfix Hf Hd Hlen Hdm Hp.
+    destruct (str_total src Hlen) as [out H]. exists out. split; [exact H|].
+    split; [apply (str_length _ _ H)|]. split; [|split].
+    - intros k c Hc. destruct (str_case_only _ _ Hla Hua Hapo H k c Hc) as (a & Ha & Hr).
+      exists a. split; [exact Ha|]. destruct Hr as [Hv|[Hin _]]; [exact Hv|].
+      exfalso. apply alnum_stable_Alnum in Hp. destruct Hp as [Hp _]. rewrite Forall_forall in Hp.
+      apply (char3_not_apo_from a); [apply Hp; eapply nth_error_In; exact Ha|exact Hin].
+    - intros toks w0 rest E Hfl. apply (str_first_upper src out toks w0 rest Hcl H E Hfl).
+    - apply (str_idempotent_alnum src out Hla Hua Hapo Hfx Hfix Hf Hd Hdm Hp H).
+  Qed.
 End Str.
 
 (* ================= non-vacuity: the ASCII restriction of Unicode + the example dictionary ================= *)
@@ -673,4 +773,89 @@ Lemma case_stable_needed :
   wchar toy_uni 42963 = true /\ ochar toy_uni 42962 = true /\
   document_plain toy_uni [42963%N] = Ok [Lexer.mktok (mkspan 0 1) Lexer.KWord] /\
   document_plain toy_uni [42962%N] = Ok [Lexer.mktok (mkspan 0 1) Lexer.KUnlintable].
+Proof. repeat split; vm_compute; reflexivity. Qed.
+
+(* ================= phase 5: non-vacuity of the class with digits, periods and the apostrophe ================= *)
+(* under the ASCII example mappings a case variant other than the character itself is the other case of a letter *)
+Lemma ex_variant_wch a c : case_variant ex_lower ex_upper a c ->
+  c = a \/ (wch ascii_uni a = true /\ wch ascii_uni c = true /\ char2 ascii_uni c = true).
+Proof.
+  intros Hv. destruct (N.eq_dec c a) as [->|Hne]; [now left|right].
+  assert (Pa : char2 ascii_uni a = true -> case_stable2 ascii_uni ex_lower ex_upper a) by apply ex_dotted_case_closed.
+  pose proof (ex_ascii_case_faithful a c Hv) as K. pose proof Hv as Hv0. apply ex_variant_inv in Hv. destruct Hv as [H1 H2].
+  assert (Hab : ((65 <= a <= 90) \/ (97 <= a <= 122))%N).
+  { destruct (ascii_lower_cases a) as [[Ea Ra]|[Ea Ra]]; destruct (ascii_lower_cases c) as [[Ec Rc]|[Ec Rc]];
+      destruct (ascii_upper_cases a) as [[Ua Sa]|[Ua Sa]]; destruct (ascii_upper_cases c) as [[Uc Sc]|[Uc Sc]];
+      rewrite ?Ea, ?Ec in H1; rewrite ?Ua, ?Uc in H2; lia. }
+  assert (Ca : char2 ascii_uni a = true).
+  { assert (Al : Lexer.is_ascii_alphabetic a = true) by (apply alpha_spec; exact Hab).
+    assert (Dg : is_ascii_digit a = false).
+    { unfold is_ascii_digit, in_range. apply Bool.andb_false_iff. destruct Hab; [right|right]; apply N.leb_gt; lia. }
+    assert (Np : nopunct a = true).
+    { unfold nopunct, mem_n, quote_chars, punct_from_char, currency_from_char. cbn [existsb].
+      repeat match goal with |- context [N.eqb a ?k] => destruct (N.eqb_spec a k); [lia|] end. reflexivity. }
+    assert (Ws : ws3 a = false).
+    { unfold ws3, mem_n. cbn [existsb].
+      repeat match goal with |- context [N.eqb a ?k] => destruct (N.eqb_spec a k); [lia|] end. reflexivity. }
+    assert (Wx : wchar ascii_uni a = true).
+    { unfold wchar, ascii_uni. cbn [u_lingual u_alphabetic u_numeric]. rewrite Al, Dg, Np, Ws. reflexivity. }
+    unfold char2, wch. rewrite Wx, Dg.
+    assert (Bd : mem_n a bad2 = false).
+    { unfold mem_n, bad2. cbn [existsb].
+      repeat match goal with |- context [N.eqb a ?k] => destruct (N.eqb_spec a k); [lia|] end. reflexivity. }
+    rewrite Bd. reflexivity. }
+  destruct (Pa Ca c Hv0) as [->|[X|(O1 & _)]]; [congruence|exact X|].
+  exfalso. destruct (ochar_parts ascii_uni a O1) as [_ [_ [Na _]]].
+  assert (Al : Lexer.is_ascii_alphabetic a = true) by (apply alpha_spec; exact Hab).
+  unfold is_ascii_alphanumeric in Na. rewrite Al in Na. discriminate.
+Qed.
+
+Lemma ex_alnum_case_closed : alnum_case_closed ascii_uni ex_lower ex_upper.
+Proof.
+  intros a _ c Hv. destruct (ex_variant_wch a c Hv) as [->|(W1 & W2 & P)]; [now left|right; left].
+  repeat split; try assumption. apply char2_char3. exact P.
+Qed.
+
+(* "the 2nd wordpress isn't v1.5e3. a.b 0xg 3's" : digits (a suffix, a float with exponent, a digit-led word, 0x that is
+   no hexadecimal number), a contraction, a possessive of a number that is not the pattern (no look-ahead match),
+   periods and a hostname *)
+Definition alnum_src : text :=
+  [116; 104; 101; 32; 50; 110; 100; 32; 119; 111; 114; 100; 112; 114; 101; 115; 115; 32; 105; 115; 110; 39; 116; 32;
+   118; 49; 46; 53; 101; 51; 46; 32; 97; 46; 98; 32; 48; 120; 103; 32; 49; 101; 53; 32; 111; 102; 32; 51; 39; 115; 97]%N.
+
+Lemma ex_alnum_stable : alnum_stable_text ascii_uni ex_lower ex_upper alnum_src.
+Proof. apply alnum_stable_of_closed; [exact ex_alnum_case_closed|vm_compute; reflexivity]. Qed.
+
+Lemma ex_alnum_run : exists out,
+  plain_text ascii_uni alnum_src = false /\ dotted_text ascii_uni alnum_src = false /\ alnum_text ascii_uni alnum_src = true /\
+  title_case_str ascii_uni ex_lower ex_upper ex_islower ex_canon ex_meta alnum_src = Ok out /\ out <> alnum_src /\
+  title_case_str ascii_uni ex_lower ex_upper ex_islower ex_canon ex_meta out = Ok out /\
+  document_tokens ascii_uni ex_meta out = document_tokens ascii_uni ex_meta alnum_src /\
+  alnum_text ascii_uni out = true /\
+  existsb (fun t => match tkind_ t with KNumber => true | _ => false end)
+          (match document_tokens ascii_uni ex_meta alnum_src with Ok ts => ts | Panic _ => [] end) = true.
+Proof.
+  eexists. split; [vm_compute; reflexivity|]. split; [vm_compute; reflexivity|]. split; [vm_compute; reflexivity|].
+  split; [vm_compute; reflexivity|]. split; [discriminate|].
+  repeat split; vm_compute; reflexivity.
+Qed.
+
+(* every excluded pattern is witnessed: two texts related by ASCII case that PlainEnglish::parse cuts differently —
+   `1s` / `1S` (Q_plural, digit), `as.b` / `AS.B` (Q_plural, hostname = FC18c), `a's` / `A'S` (Q_apos),
+   `0x1` / `0X1` (Q_hex); all four lower-case texts consist of class characters only *)
+Lemma alnum_patterns_witnessed :
+  (forallb (char3 ascii_uni) [49; 115]%N = true /\ q_plural ascii_uni [49; 115]%N = true /\
+   plain_parse ascii_uni [49; 83]%N <> plain_parse ascii_uni [49; 115]%N) /\
+  (forallb (char3 ascii_uni) [97; 115; 46; 98]%N = true /\ q_plural ascii_uni [97; 115; 46; 98]%N = true /\
+   plain_parse ascii_uni [65; 83; 46; 66]%N <> plain_parse ascii_uni [97; 115; 46; 98]%N) /\
+  (forallb (char3 ascii_uni) [97; 39; 115]%N = true /\ q_apos ascii_uni [97; 39; 115]%N = true /\
+   plain_parse ascii_uni [65; 39; 83]%N <> plain_parse ascii_uni [97; 39; 115]%N) /\
+  (forallb (char3 ascii_uni) [48; 120; 49]%N = true /\ q_hex [48; 120; 49]%N = true /\
+   plain_parse ascii_uni [48; 88; 49]%N <> plain_parse ascii_uni [48; 120; 49]%N).
+Proof. repeat split; try (vm_compute; reflexivity); vm_compute; discriminate. Qed.
+
+(* what the refined hostname clause of Q_plural no longer excludes (C18LexDots' pattern did): `as-is`, `as.`, `as.b.` *)
+Lemma alnum_refines_dotted :
+  alnum_text ascii_uni [97; 115; 45; 105; 115]%N = true /\ dotted_text ascii_uni [97; 115; 45; 105; 115]%N = false /\
+  alnum_text ascii_uni [97; 115; 46; 98; 46]%N = true /\ dotted_text ascii_uni [97; 115; 46; 98; 46]%N = false.
 Proof. repeat split; vm_compute; reflexivity. Qed.
